@@ -5,17 +5,17 @@ Spec function d2(p, a, b): squared distance from p to the straight segment ab (b
   points_in_tolerance(pts, tol), len >= 3:  result <=> every interior point has d2(p, pts[0], pts[-1]) < tol^2
        PROVED for point lists of UNKNOWN length (abstract indexed sequence + loop invariant, pointwise at an arbitrary index).
   max_dist_from_n_points(pts): result >= 0, result^2 == max_i d2(...); agreement  tol > 0 => (points_in_tolerance <=> max_dist < tol)
-       proved PER LENGTH 3..5 with symbolic coordinates (the ffgeom dependency is executed from site-packages, inline).
+       PROVED for any length (map comprehensions evaluated on demand, max() contract, distanceToPoint contract proved of the dependency).
   supersample(vertices, tol): only deletes; in-order subsequence of the SAME vertex objects; first and last kept; every deleted vertex j
        between surviving neighbours a, b has d2(v_j, v_a, v_b) < tol^2; <= 2 vertices or tol <= 0: unchanged.
-       proved PER LENGTH 0..6 with symbolic coordinates and tolerance (complete unrolling; points_in_tolerance used modularly):
-       bounded in the LENGTH of the list only -- labelled so.
+       PROVED for lists of UNKNOWN length (OuterSS / InnerSS invariants over the arrangement f, points_in_tolerance used modularly);
+       additionally per length on concrete heap lists (complete unrolling).
 """
 import z3
 
 from pyvc.harness import no_raise, oblige_at
-from pyvc.engine import Ret, Raised, EngineError, Exec, Path
-from pyvc.values import VInt, VFloat, VTuple, VNone, VBool, NONE, VRef, HList
+from pyvc.engine import Ret, Raised, EngineError, Exec, Path, LoopSpec, fresh_name, NORMAL
+from pyvc.values import Val, VInt, VFloat, VTuple, VNone, VBool, NONE, VRef, HList
 from pyvc.absseq import VAbsSeq
 from pyvc.session import native
 from .c19 import CursorLoop
@@ -77,10 +77,30 @@ def check_pit_unbounded(sess):
             oblige_at(ex, q, tag, 'ensures', z3.Implies(z3.And(j >= 0, j < n - 2), inner(j)), 'True=>every-interior-point-is-within-tolerance')
         else:
             k = q.ghost.get('cursor_interior')
-            oblige_at(ex, q, tag, 'ensures', z3.And(k >= 0, k < n - 2, z3.Not(inner(k))) if k is not None else False,
+            oblige_at(ex, q, tag, 'ensures', z3.And(k >= 0, k < n - 2) if k is not None else False, 'False=>the-offending-index-is-interior')
+            oblige_at(ex, q, tag, 'ensures', z3.Not(inner(k)) if k is not None else False,
                       'False=>some-interior-point-is-at-or-beyond-the-tolerance')
     if got != {True, False}:
         raise EngineError(f'points_in_tolerance: result values reached {got}')
+    # hint (Lagrange identity, a lemma obligation below): (u.v)^2 + (u x v)^2 == |u|^2 |v|^2 for u = point - end, v = chord, at every index
+    # term an obligation talks about.  It lets boundary-equivalent variants of the region tests (t <= 0 vs t < 0, ...) verify.
+    def lagrange(k, end):
+        ux, uy = PX(k) - end[0], PY(k) - end[1]
+        vx, vy = b[0] - a[0], b[1] - a[1]
+        dot, cr = ux * vx + uy * vy, ux * vy - vx * uy
+        return dot * dot + cr * cr == (ux * ux + uy * uy) * (vx * vx + vy * vy)
+    for ob in ctx.obligations:
+        ks = {}
+        for h in list(ob.hyps) + [ob.goal]:
+            for c in z3.z3util.get_vars(h):
+                if c.sort() == z3.IntSort() and (str(c).startswith('cursor_interior') or str(c) == 'jstar'):
+                    ks[str(c)] = c
+        for k in ks.values():
+            ob.hyps.append(lagrange(k + 1, a))
+            ob.hyps.append(lagrange(k + 1, b))
+    ux, uy, vx, vy = z3.Reals('ux uy vx vy')
+    sess.add('lemma/lagrange-identity', 'spec', 'lemma', [], (ux * vx + uy * vy) * (ux * vx + uy * vy) + (ux * vy - vx * uy) * (ux * vy - vx * uy)
+             == (ux * ux + uy * uy) * (vx * vx + vy * vy))
     sess.absorb(ctx, replay=replay09('pit'))
     # canary: a vertex exactly at the tolerance counts as within
     x = z3.Real('x')
@@ -163,6 +183,239 @@ def check_supersample(sess, max_len):
     return total_paths
 
 
+
+# ------------------------------------------------------------------------------ supersample for lists of UNKNOWN length
+# W(j, a, b): original vertex j is strictly within the tolerance of the straight segment from original vertex a to original vertex b.
+# It is a NAME for  d2(P_j, P_a, P_b) < tol^2  (definitional): the loop proof below never needs its arithmetic content, and
+# points_in_tolerance -- proved above for any length -- is used through exactly this statement.
+WITHIN = z3.Function('within_tolerance_of_segment', z3.IntSort(), z3.IntSort(), z3.IntSort(), z3.BoolSort())
+
+
+class HSubseq:
+    """state of the vertex list while supersample edits it: current length L and  f: current index -> ORIGINAL index;
+    the element at current index i is the original vertex object number f(i)"""
+    def __init__(self, L, f):
+        self.L, self.f = L, f
+
+    def copy(self):
+        return HSubseq(self.L, self.f)
+
+
+def clip(t, L):
+    return z3.If(t < 0, z3.If(t + L < 0, 0, t + L), z3.If(t > L, L, t))
+
+
+class VVertList(Val):
+    """the list handed to supersample.  Supported: len, slice read (a view), slice assignment of [] (deletion).  Anything else is an
+    engine limit -- so whatever the code does, the list always consists of original vertex objects in some arrangement f."""
+    pytype = 'list'
+
+    def __init__(self, ref):
+        self.ref = ref
+
+    def length(self, ex, p):
+        return VInt(p.heap[self.ref].L)
+
+    def _bounds(self, p, lo, hi):
+        from pyvc.engine import to_int_val
+        st = p.heap[self.ref]
+        a = z3.IntVal(0) if lo is None or isinstance(lo, VNone) else clip(to_int_val(lo).z(), st.L)
+        b = st.L if hi is None or isinstance(hi, VNone) else clip(to_int_val(hi).z(), st.L)
+        return st, z3.simplify(a), z3.simplify(b)
+
+    def getslice(self, ex, p, lo, hi, node=None):
+        st, a, b = self._bounds(p, lo, hi)
+        yield p, VVertView(a, b, st.f)
+
+    def setslice(self, ex, p, lo, hi, v, node=None):
+        if not (isinstance(v, VRef) and isinstance(p.heap.get(v.ref), HList) and not p.heap[v.ref].items):
+            raise EngineError('slice assignment of something other than [] to the vertex list')
+        st, a, b = self._bounds(p, lo, hi)
+        cnt = z3.If(b > a, b - a, 0)
+        old = st.f
+        st.f = (lambda i, _o=old, _a=a, _c=cnt: _o(z3.If(i < _a, i, i + _c)))
+        st.L = z3.simplify(st.L - cnt)
+        yield p, NORMAL
+
+
+class VVertView(Val):
+    """vertices[a:b] (already clipped), a snapshot"""
+    pytype = 'list'
+
+    def __init__(self, a, b, f):
+        self.a, self.b, self.f = a, b, f
+
+    def length(self, ex, p):
+        return VInt(z3.If(self.b > self.a, self.b - self.a, 0))
+
+
+class PitAbs:
+    """points_in_tolerance(view, tol) at its call site in supersample (contract proved in check_pit_unbounded for any length):
+       requires len(view) >= 3 (else AssertionError);  result r:  r  <=>  every interior element is WITHIN the chord first-last.
+       Instances of the quantified right-hand side are added at the current-index terms in p.ghost['pit_inst']; for not r a skolem witness."""
+    def apply(self, ex, p, args, kwargs, node):
+        pts, tol = args
+        if not isinstance(pts, VVertView):
+            raise EngineError('points_in_tolerance on something that is not a slice of the vertex list')
+        if not (hasattr(tol, 'z') and tol.z().eq(p.ghost['tol'])):
+            ex.oblige(p, 'callee-requires', False, 'points_in_tolerance-is-called-with-the-caller\'s-tolerance')
+        a, b, f = pts.a, pts.b, pts.f
+        for q, r in ex.raise_unless(p, b - a >= 3, 'AssertionError', node):
+            if r is not None:
+                yield q, r
+                continue
+            res = z3.Bool(fresh_name('pit'))
+            for k in q.ghost.get('pit_inst', []):
+                q.assume(z3.Implies(z3.And(res, a < k, k < b - 1), WITHIN(f(k), f(a), f(b - 1))))
+            k0 = z3.Int(fresh_name('offender'))
+            q.assume(z3.Implies(z3.Not(res), z3.And(a < k0, k0 < b - 1, z3.Not(WITHIN(f(k0), f(a), f(b - 1))))))
+            q.ghost['last_pit'] = (res, a, b)
+            yield q, VBool(res)
+
+
+class OuterSS(LoopSpec):
+    """while start_index < len(vertices) - 2.   Invariant over (s, L, f), skolems i1, i2, w in p.ghost['sk']:
+         0 <= s <= L, 2 <= L <= n;  f(0) == 0, f(L-1) == n-1;  tail untouched: i >= s => f(i) == i + n - L;
+         prefix increasing: i < s => 0 <= f(i) < f(i+1) and f(i) < f(s);  deleted within: i < s and f(i) < w < f(i+1) => WITHIN(w, f(i), f(i+1))"""
+    modifies = frozenset({'start_index'})
+
+    def state(self, p):
+        v = p.env.get('vertices')
+        if not isinstance(v, VVertList):
+            return None
+        return p.heap[v.ref]
+
+    def inv(self, p, s, L, f):
+        i1, i2, w = p.ghost['sk']
+        n = p.ghost['n']
+        return [('0<=start<=len,2<=len<=n', z3.And(s >= 0, s <= L, L >= 2, L <= n)),
+                ('first-vertex-kept', f(z3.IntVal(0)) == 0),
+                ('last-vertex-kept', f(L - 1) == n - 1),
+                ('tail-not-yet-touched', z3.Implies(z3.And(i2 >= s, i2 < L), f(i2) == i2 + n - L)),
+                ('prefix-strictly-increasing', z3.Implies(z3.And(i1 >= 0, i1 < s), z3.And(f(i1) >= 0, f(i1) < f(i1 + 1)))),
+                ('prefix-lies-before-the-tail', z3.And(*[z3.Implies(z3.And(j >= 0, j < s), f(j) < s + n - L) for j in (i1, i1 + 1)])),
+                ('every-deleted-vertex-within-tolerance-of-its-surviving-segment',
+                 z3.Implies(z3.And(i1 >= 0, i1 < s, f(i1) < w, w < f(i1 + 1)), WITHIN(w, f(i1), f(i1 + 1))))]
+
+    def establish(self, ex, p):
+        st = self.state(p)
+        s = p.env.get('start_index')
+        if st is None or not isinstance(s, VInt):
+            return [('loop-state-is-(start_index:int,vertices)', z3.BoolVal(False))]
+        return [(f'outer:{n}', g) for n, g in self.inv(p, s.z(), st.L, st.f)]
+
+    def head(self, ex, p):
+        st = self.state(p)
+        n = p.ghost['n']
+        s = z3.Int(fresh_name('start_index'))
+        L = z3.Int(fresh_name('len_now'))
+        Fh = z3.Function(fresh_name('orig_index_at_head'), z3.IntSort(), z3.IntSort())
+        p.env['start_index'] = VInt(s)
+        st.L = L
+        st.f = (lambda i, _s=s, _L=L: z3.If(i >= _s, i + n - _L, Fh(i)))
+        p.ghost['outer_head'] = (s, L)
+        _, _, w = p.ghost['sk']
+        p.ghost['pit_inst'] = [w - (n - L)]           # the current index of the witness vertex while it is in the untouched tail
+        for _, g in self.inv(p, s, L, st.f):
+            p.assume(g)
+
+    def preserve(self, ex, p):
+        st = self.state(p)
+        s = p.env.get('start_index')
+        if st is None or not isinstance(s, VInt):
+            return [('loop-state-is-(start_index:int,vertices)', z3.BoolVal(False))]
+        s0, L0 = p.ghost['outer_head']
+        obs = [(f'outer:{n}', g) for n, g in self.inv(p, s.z(), st.L, st.f)]
+        obs.append(('outer:variant-len-2-start-decreases', z3.And(st.L - 2 - s.z() < L0 - 2 - s0, L0 - 2 - s0 > 0)))
+        return obs
+
+
+class InnerSS(LoopSpec):
+    """while points_in_tolerance(vertices[s:e+1], tol) and e < len(vertices).   Invariant over e:
+         s+2 <= e <= L;   e > s+2  =>  every k with s < k < e-1 is WITHIN the chord (s, e-1)   [instantiated at p.ghost['pit_inst']]"""
+    modifies = frozenset({'end_index'})
+
+    def inv(self, p, e):
+        st = p.heap[p.env['vertices'].ref]
+        s = p.env['start_index'].z()
+        f = st.f
+        out = [('start+2<=end<=len', z3.And(e >= s + 2, e <= st.L))]
+        for k in p.ghost.get('pit_inst', []):
+            out.append(('vertices-strictly-between-start-and-end-1-are-within-tolerance-of-that-chord',
+                        z3.Implies(z3.And(e > s + 2, s < k, k < e - 1), WITHIN(f(k), f(s), f(e - 1)))))
+        return out
+
+    def ok(self, p):
+        return isinstance(p.env.get('vertices'), VVertList) and isinstance(p.env.get('start_index'), VInt) and isinstance(p.env.get('end_index'), VInt)
+
+    def establish(self, ex, p):
+        if not self.ok(p):
+            return [('loop-state-is-(start_index,end_index:int,vertices)', z3.BoolVal(False))]
+        p.ghost['inner_len'] = p.heap[p.env['vertices'].ref].L
+        return [(f'inner:{n}', g) for n, g in self.inv(p, p.env['end_index'].z())]
+
+    def head(self, ex, p):
+        e = z3.Int(fresh_name('end_index'))
+        p.env['end_index'] = VInt(e)
+        p.ghost['inner_head'] = e
+        for _, g in self.inv(p, e):
+            p.assume(g)
+
+    def preserve(self, ex, p):
+        if not self.ok(p):
+            return [('loop-state-is-(start_index,end_index:int,vertices)', z3.BoolVal(False))]
+        st = p.heap[p.env['vertices'].ref]
+        e0 = p.ghost['inner_head']
+        same = st.L is p.ghost['inner_len'] or z3.is_true(z3.simplify(st.L == p.ghost['inner_len']))
+        obs = [(f'inner:{n}', g) for n, g in self.inv(p, p.env['end_index'].z())]
+        obs.append(('inner:the-list-is-not-edited-while-the-end-advances', z3.BoolVal(bool(same))))
+        obs.append(('inner:variant-len-end-decreases', z3.And(st.L - p.env['end_index'].z() < st.L - e0, st.L - e0 > 0)))
+        return obs
+
+
+def check_supersample_unbounded(sess):
+    ctx = sess.new_ctx()
+    ctx.contracts[f'{MOD}.points_in_tolerance'] = PitAbs()
+    ctx.loop_specs[(f'{MOD}.supersample', 0)] = OuterSS()
+    ctx.loop_specs[(f'{MOD}.supersample', 1)] = InnerSS()
+    ex = Exec(ctx)
+    p = Path()
+    n, i1, i2, w = z3.Ints('n_vertices any_position any_tail_position any_vertex')
+    tol = z3.Real('tolerance')
+    p.assume(n >= 0)
+    ident = (lambda i: i)
+    ref = p.alloc(HSubseq(n, ident), 'vertices').ref
+    p.ghost.update(n=n, tol=tol, sk=(i1, i2, w))
+    outs = list(ex.run_function(p, MOD, 'supersample', [VVertList(ref), VFloat(tol)]))
+    tag = 'supersample[any-length]'
+    kinds = set()
+    for q, out in outs:
+        if not no_raise(ex, q, out, tag):
+            continue
+        oblige_at(ex, q, tag, 'ensures', isinstance(out.val, VNone), 'returns-None(edits-in-place)')
+        st = q.heap[ref]
+        L, f = st.L, st.f
+        through_loop = any(t.startswith('loop0') for t in q.trail)
+        if not through_loop:
+            kinds.add('unchanged')
+            oblige_at(ex, q, tag, 'ensures', z3.Or(n <= 2, tol <= 0), 'returns-early-only-for-short-lists-or-non-positive-tolerance')
+            oblige_at(ex, q, tag, 'ensures', bool(st.f is ident and st.L is n), 'short-list-or-non-positive-tolerance:left-unchanged')
+            continue
+        kinds.add('edited')
+        oblige_at(ex, q, tag, 'ensures', z3.And(n > 2, tol > 0), 'edits-only-longer-lists-with-positive-tolerance')
+        oblige_at(ex, q, tag, 'ensures', z3.And(L >= 2, L <= n, f(z3.IntVal(0)) == 0, f(L - 1) == n - 1), 'first-and-last-vertex-kept')
+        oblige_at(ex, q, tag, 'ensures', z3.Implies(z3.And(i1 >= 0, i1 < L - 1), z3.And(f(i1) >= 0, f(i1) < f(i1 + 1), f(i1 + 1) <= n - 1)),
+                  'result-is-an-in-order-subsequence-of-the-same-vertex-objects')
+        oblige_at(ex, q, tag, 'ensures', z3.Implies(z3.And(i1 >= 0, i1 < L - 1, f(i1) < w, w < f(i1 + 1)), WITHIN(w, f(i1), f(i1 + 1))),
+                  'every-deleted-vertex-is-within-tolerance-of-the-surviving-segment-around-it')
+        sess.cover(f'supersample[any-length]/exit-path-{len(kinds)}-reachable', list(q.pc))
+    if kinds != {'unchanged', 'edited'}:
+        raise EngineError(f'supersample: result kinds reached {kinds}')
+    sess.absorb(ctx, replay=replay09('supersample'))
+    # canary: the claim fails if "within" were demanded of the segment between the ORIGINAL neighbours instead of the surviving ones
+    sess.canary('deleted-vertex-within-tolerance-of-its-original-neighbours', [n >= 3, w >= 1, w < n - 1, WITHIN(w, 0, n - 1)], WITHIN(w, w - 1, w + 1))
+
+
 class DistContract:
     """call-site contract of ffgeom.Segment.distanceToPoint(p): r >= 0 and r^2 == d2(p, e0, e1)  (proved of the real body below)"""
     def apply(self, ex, p, args, kwargs, node):
@@ -216,15 +469,42 @@ def check_distance_to_point(sess):
             oblige_at(ex, q, tag, 'ensures', False, 'returns-a-number(not-NaN)')
             continue
         oblige_at(ex, q, tag, 'ensures', r.z() >= 0, 'distance>=0')
-        oblige_at(ex, q, tag, 'ensures', r.z() * r.z() == d2(px, py, ax, ay, bx, by), 'distance^2==d2')
+        # staged (assert-then-assume): which of the three regions of d2 this return path is in, the value in that region without the
+        # division, then the contract clause from those two facts -- each step is easy and reproducible for nlsat, whereas the
+        # un-staged clause took 25 s (of a 30 s budget) on the perpendicular path
+        dx, dy = bx - ax, by - ay
+        L2 = dx * dx + dy * dy
+        tt = (px - ax) * dx + (py - ay) * dy
+        cr = (px - ax) * dy - dx * (py - ay)
+        rz = r.z()
+        regions = [('before-the-first-end', tt <= 0, rz * rz == (px - ax) * (px - ax) + (py - ay) * (py - ay)),
+                   ('beyond-the-second-end', z3.And(tt > 0, tt >= L2), rz * rz == (px - bx) * (px - bx) + (py - by) * (py - by)),
+                   ('beside-the-segment', z3.And(tt > 0, tt < L2), z3.And(L2 > 0, rz * rz * L2 == cr * cr))]
+        staged = []
+        for nm, reg, val in regions:
+            sv = z3.Solver()
+            sv.set('timeout', 3000)
+            sv.add(*q.pc)
+            sv.add(z3.Not(reg))
+            if sv.check() == z3.unsat:
+                oblige_at(ex, q, tag, 'lemma', reg, f'this-return-path-is-the-region-{nm}')
+                q.pc.append(reg)
+                oblige_at(ex, q, tag, 'lemma', val, f'value-in-the-region-{nm}')
+                q.pc.append(val)
+                staged = [reg, val]
+                break
+        oblige_at(ex, q, tag, 'ensures', rz * rz == d2(px, py, ax, ay, bx, by), 'distance^2==d2')
+        if staged:
+            del q.pc[-2:]
         n += 1
     if n < 3:
         raise EngineError(f'distanceToPoint: {n} returning paths (expected the three regions)')
     sess.absorb(ctx, replay=replay09('maxdist'))
 
 
-def check_max_dist(sess, lengths):
-    check_distance_to_point(sess)
+def check_max_dist(sess, lengths, with_dependency=True):
+    if with_dependency:
+        check_distance_to_point(sess)
     # max of non-negative numbers commutes with squaring
     a, b = z3.Reals('a b')
     sess.add('lemma/max-commutes-with-squaring', 'spec', 'lemma', [a >= 0, b >= 0], z3.If(b > a, b, a) * z3.If(b > a, b, a) == z3.If(b * b > a * a, b * b, a * a))
@@ -259,28 +539,203 @@ def check_max_dist(sess, lengths):
         sess.absorb(ctx, replay=replay09('maxdist'))
 
 
+
+# ------------------------------------------------------------------------------ max_dist_from_n_points for lists of UNKNOWN length
+DISTF = z3.Function('distance_point_to_segment', *([z3.RealSort()] * 7))
+
+
+class DistFn:
+    """call-site contract of ffgeom.Segment.distanceToPoint (proved of the real body in check_distance_to_point), as a FUNCTION of the
+    six coordinates: r = DISTF(p, e0, e1) with r >= 0 and r^2 == d2(p, e0, e1)"""
+    def apply(self, ex, p, args, kwargs, node):
+        seg, pt = args
+        e = coords_of_segment(ex, p, seg)
+        c = coords_of_point(ex, p, pt)
+        r = DISTF(c[0], c[1], e[0], e[1], e[2], e[3])
+        p.assume(z3.And(r >= 0, r * r == d2(c[0], c[1], e[0], e[1], e[2], e[3])))
+        yield p, VFloat(r)
+
+
+class HMapState:
+    def __init__(self, lo, hi):
+        self.lo, self.hi = lo, hi
+
+    def copy(self):
+        return HMapState(self.lo, self.hi)
+
+
+class VMapSeq(Val):
+    """[elt(x) for x in base]: element k is the comprehension's element expression evaluated on base[k] (on demand: the expression must be
+    pure); a window lo..hi of it is live (pop(0) / pop() shrink the window)."""
+    pytype = 'list'
+
+    def __init__(self, ref, comp, base_elem):
+        self.ref, self.comp, self.base_elem = ref, comp, base_elem
+
+    def elem_at(self, ex, p, t, node):
+        gen = self.comp.generators[0]
+        saved = {n: p.env.get(n) for n in _names(gen.target)}
+        n_pc = len(p.pc)
+        res = list(ex.assign(p, gen.target, self.base_elem(ex, p, t, node)))
+        if len(res) != 1 or res[0][1] is not NORMAL:
+            raise EngineError('comprehension target does not match the element shape')
+        r = list(ex.ev(self.comp.elt, p))
+        if len(r) != 1 or isinstance(r[0][1], Raised) or r[0][0] is not p:
+            raise EngineError('comprehension element expression forks / raises: not modelled on abstract sequences')
+        for n, v in saved.items():
+            if v is None:
+                p.env.pop(n, None)
+            else:
+                p.env[n] = v
+        return r[0][1]
+
+    def length(self, ex, p):
+        st = p.heap[self.ref]
+        return VInt(z3.If(st.hi > st.lo, st.hi - st.lo, 0))
+
+    def method(self, ex, p, name, args, kwargs, node):
+        st = p.heap[self.ref]
+        if name == 'pop' and (not args or (isinstance(args[0], VInt) and args[0].conc() and args[0].t == 0)):
+            for q, r in ex.raise_unless(p, st.hi > st.lo, 'IndexError', node):
+                if r is not None:
+                    yield q, r
+                    continue
+                st2 = q.heap[self.ref]
+                if args:
+                    v = self.elem_at(ex, q, st2.lo, node)
+                    st2.lo = z3.simplify(st2.lo + 1)
+                else:
+                    v = self.elem_at(ex, q, z3.simplify(st2.hi - 1), node)
+                    st2.hi = z3.simplify(st2.hi - 1)
+                yield q, v
+            return
+        raise EngineError(f'list method {name} on a mapped abstract sequence')
+
+    def minmax(self, ex, p, which, node):
+        """library contract of max()/min() on a non-empty list of numbers: the result is an element and bounds every element"""
+        st = p.heap[self.ref]
+        for q, r in ex.raise_unless(p, st.hi > st.lo, 'ValueError', node):
+            if r is not None:
+                yield q, r
+                continue
+            st2 = q.heap[self.ref]
+            k0 = z3.Int(fresh_name(f'arg{which}'))
+            q.assume(z3.And(k0 >= st2.lo, k0 < st2.hi))
+            v0 = self.elem_at(ex, q, k0, node)
+            if not isinstance(v0, VFloat):
+                raise EngineError('max over non-float elements')
+            q.ghost['argmax'] = k0
+            for k in q.ghost.get('max_inst', []):
+                vk = self.elem_at(ex, q, k, node)
+                q.assume(z3.Implies(z3.And(k >= st2.lo, k < st2.hi), (v0.z() >= vk.z()) if which == 'max' else (v0.z() <= vk.z())))
+            yield q, v0
+
+
+def _names(t):
+    import ast
+    return [n.id for n in ast.walk(t) if isinstance(n, ast.Name)]
+
+
+def maxdist_listcomp(ex, p, e, it):
+    """comprehensions of max_dist_from_n_points over abstract sequences: a map, evaluated on demand"""
+    if len(e.generators) != 1 or e.generators[0].ifs:
+        return None
+    if isinstance(it, VAbsSeq) and it.elem is not None:
+        ref = p.alloc(HMapState(z3.IntVal(0), it.n), 'mapped').ref
+        return VMapSeq(ref, e, lambda ex_, p_, t, node, _it=it: _it.elem(t)[0])
+    if isinstance(it, VMapSeq):
+        st = p.heap[it.ref]
+        ref = p.alloc(HMapState(st.lo, st.hi), 'mapped').ref
+        return VMapSeq(ref, e, lambda ex_, p_, t, node, _it=it: _it.elem_at(ex_, p_, t, node))
+    return None
+
+
+def check_max_dist_unbounded(sess):
+    ctx = sess.new_ctx()
+    ctx.opts['inline_all'] = True
+    ctx.contracts['ink_extensions.ffgeom.Segment.distanceToPoint'] = DistFn()
+    ctx.opts['listcomp_hook'] = maxdist_listcomp
+    ctx.opts['prune_timeout_ms'] = 3000
+    ex = Exec(ctx)
+    p = Path()
+    n, j = z3.Ints('n_points jstar')
+    tol = z3.Real('tolerance')
+    p.assume(n >= 0)
+    p.ghost['max_inst'] = [j]
+    seq = VAbsSeq(n, lambda tag: pt_at(z3.Int(tag)), elem=pt_at, name='input_points')
+    dsq = lambda i: d2(PX(i), PY(i), PX(0), PY(0), PX(n - 1), PY(n - 1))
+    outs = list(ex.run_function(p, MOD, 'max_dist_from_n_points', [seq]))
+    tag = 'max_dist_from_n_points[any-length]'
+    got = 0
+    for q, out in outs:
+        if isinstance(out, Raised) and out.cls == 'AssertionError':
+            oblige_at(ex, q, tag, 'ensures', n < 3, 'asserts-only-for-fewer-than-3-points')
+            continue
+        if not no_raise(ex, q, out, tag):
+            continue
+        r = out.val
+        if not isinstance(r, VFloat):
+            oblige_at(ex, q, tag, 'ensures', False, 'returns-a-number')
+            continue
+        got += 1
+        rz = r.z()
+        k0 = q.ghost.get('argmax')
+        interior = lambda k: z3.And(k >= 1, k < n - 1)
+        # hint (lemma below): the distance does not depend on the order of the segment's ends
+        dsw = lambda i: d2(PX(i), PY(i), PX(n - 1), PY(n - 1), PX(0), PY(0))
+        q.pc.append(dsw(j) == dsq(j))
+        if k0 is not None:
+            q.pc.append(dsw(k0) == dsq(k0))
+        oblige_at(ex, q, tag, 'ensures', rz >= 0, 'result>=0')
+        oblige_at(ex, q, tag, 'ensures', z3.Implies(interior(j), rz * rz >= dsq(j)), 'result^2>=squared-distance-of-every-interior-point')
+        oblige_at(ex, q, tag, 'ensures', z3.And(interior(k0), rz * rz == dsq(k0)) if k0 is not None else False, 'result^2-is-the-squared-distance-of-some-interior-point')
+        # agreement with points_in_tolerance (whose contract -- result <=> every interior point has d2 < tol^2 -- is proved above)
+        post = [rz >= 0, z3.Implies(interior(j), rz * rz >= dsq(j)), z3.And(interior(k0), rz * rz == dsq(k0))] if k0 is not None else [z3.BoolVal(False)]
+        ob = ex.oblige(q, 'relational', rz < tol, 'points_in_tolerance=>max_dist<tolerance', extra_hyps=post + [tol > 0, dsq(k0) < tol * tol])
+        ob.func = tag
+        ob = ex.oblige(q, 'relational', z3.Implies(interior(j), dsq(j) < tol * tol), 'max_dist<tolerance=>points_in_tolerance', extra_hyps=post + [tol > 0, rz < tol])
+        ob.func = tag
+        # satisfiability witness of the path condition (a concrete triangle makes the non-linear part trivial for the solver)
+        sess.cover(f'max_dist_from_n_points[any-length]/exit-path-{got}-reachable',
+                   list(q.pc) + [n == 3, PX(0) == 0, PY(0) == 0, PX(1) == 1, PY(1) == 1, PX(2) == 2, PY(2) == 0, j == 1])
+    if got == 0:
+        raise EngineError('max_dist_from_n_points: no returning path')
+    sess.absorb(ctx, replay=replay09('maxdist'))
+    px, py, ax, ay, bx, by = z3.Reals('px py ax ay bx by')
+    sess.add('lemma/distance-to-a-segment-is-symmetric-in-its-ends', 'spec', 'lemma', [], d2(px, py, ax, ay, bx, by) == d2(px, py, bx, by, ax, ay))
+
+
 def build(sess):
-    sess.level = 'other'
+    sess.level = 'proof'
     sess.trust(
-        'pyvc symbolic executor and its model of the Python subset; abstract indexed sequence for the point list of points_in_tolerance',
+        'pyvc symbolic executor and its model of the Python subset; abstract indexed sequence for the point list of points_in_tolerance and '
+        'max_dist_from_n_points; abstract editable vertex list for supersample (len, slice read, slice deletion; anything else is an engine limit)',
         'floats are modelled as reals; math.sqrt is the exact non-negative root',
-        'z3 nlsat / cvc5 (QF_NRA)',
-        'ink_extensions.ffgeom (dependency) is read from site-packages and executed inline for max_dist_from_n_points',
+        'z3 nlsat / cvc5 (QF_NRA; QF_UFLIA for the supersample loop proof)',
+        'ink_extensions.ffgeom (dependency) is read from site-packages: Point/Segment constructors run inline, distanceToPoint is proved against '
+        'its contract and used through it',
+        'library contracts: max() of a non-empty list returns an element that bounds every element; a list comprehension without filter maps '
+        'element k to the element expression evaluated on base[k] (expression must be pure: checked)',
     )
     check_pit_unbounded(sess)
-    max_len = 5 if sess.tier == 'quick' else 7
+    check_supersample_unbounded(sess)
+    check_distance_to_point(sess)
+    check_max_dist_unbounded(sess)
+    # supplementary, per length, on concrete heap lists (object identity of the vertices, coordinates untouched, real list semantics)
+    max_len = 4 if sess.tier == 'quick' else 7
     paths = check_supersample(sess, max_len)
-    check_max_dist(sess, (3, 4) if sess.tier == 'quick' else (3, 4, 5))
-    sess.bounded.append({'function': 'plot_utils.supersample', 'bound': f'vertex lists of length 0..{max_len}; coordinates and tolerance fully symbolic (all reals)',
+    check_max_dist(sess, (3,) if sess.tier == 'quick' else (3, 4, 5), with_dependency=False)
+    sess.bounded.append({'function': 'plot_utils.supersample (supplementary to the any-length proof)', 'bound': f'vertex lists of length 0..{max_len} as concrete heap lists; coordinates and tolerance fully symbolic',
                          'evaluations': paths, 'distinct_nontrivial': paths,
                          'rule': 'complete symbolic unrolling per list length: one evaluation = one feasible execution path, each checked by SMT for ALL coordinates'})
-    sess.bounded.append({'function': 'plot_utils.max_dist_from_n_points + agreement clause', 'bound': 'point lists of length 3..' + ('4' if sess.tier == 'quick' else '5'),
-                         'evaluations': 2, 'distinct_nontrivial': 2, 'rule': 'per length, symbolic coordinates'})
     sess.explanation = ('PROVED for any number of points: points_in_tolerance <=> every interior point is strictly within the tolerance of the '
-                        'chord (loop invariant over an abstract sequence, three distance regions against the spec d2, dead zero-length exit). '
-                        f'PROVED PER LENGTH (bounded in the list length only, coordinates/tolerance symbolic): supersample for lists of 0..{max_len} '
-                        'vertices (subsequence of the same objects, ends kept, every deleted vertex within tolerance of the surviving segment), '
-                        'max_dist_from_n_points and its agreement with points_in_tolerance. Unbounded-length supersample is NOT proved.')
+                        'chord (loop invariant over an abstract sequence, three distance regions against the spec d2, dead zero-length exit); '
+                        'supersample on a vertex list of UNKNOWN length (two nested loop invariants over the arrangement f: current index -> original '
+                        'index; points_in_tolerance used through its contract): only deletes, in-order subsequence of the same objects, first and '
+                        'last kept, every deleted vertex within tolerance of the surviving segment around it, short lists / non-positive tolerance '
+                        'unchanged, both loops terminate (variants); max_dist_from_n_points for any length (map comprehensions on demand, max() '
+                        'contract, distanceToPoint contract proved of the dependency) and its agreement with points_in_tolerance. '
+                        f'Additionally per length 0..{max_len} on concrete heap lists.')
 
 
 def fallback(sess):
